@@ -270,7 +270,7 @@ def extrema(prog, ctx, roles):
                 return sp.simplify(t)
             except Exception:
                 return t
-        places = [-0.005, 0.0, 0.5, 1.0, 2.5, 4.5, 5.0, 5.005]
+        places = [-0.008, -0.005, 0.0, 0.5, 1.0, 2.5, 4.5, 5.0, 5.005, 5.008]
         missing, undecided_rows, nrows = [], [], 0
         knot_terms = []
         for o in outs:
@@ -313,14 +313,17 @@ def extrema(prog, ctx, roles):
                 miss = sorted(k_ for k_ in expected if k_ not in examined and k_ != x1v and k_ != x2v)
                 if miss:
                     missing.append({'x1': x1v, 'x2': x2v, 'knots_never_compared': miss, 'compared': sorted(examined)})
+                extra = sorted(k_ for k_ in examined if k_ not in expected)
+                if extra:
+                    missing.append({'x1': x1v, 'x2': x2v, 'knots_outside_the_interval_compared': extra})
                 if els:
                     knot_terms.append(sel[0])
         if undecided_rows and not missing:
             ctx.undecided('C08.c', name + ':coverage', fn, 'candidate set not evaluated on the concrete table: %s' % undecided_rows[:2])
         else:
             ctx.decide('C08.c', name + ':coverage', fn, not missing,
-                       'on all %d placements of the limits every knot inside [x1,x2] is a candidate (table X[k]=k, k<%d, limits incl. both extrapolation zones)' % (nrows, NT),
-                       'a knot inside [x1,x2] is never compared: %s' % missing[:2],
+                       'on all %d placements of the limits the knots compared are exactly the knots inside [x1,x2] (or a limit itself) (table X[k]=k, k<%d, limits incl. both extrapolation zones)' % (nrows, NT),
+                       'the knots compared are not the knots inside [x1,x2]: %s' % missing[:2],
                        witness={'cases': missing[:4], 'reproducer': 'Interpolation({0,1,2},{0,4,5}).Local_Maximum(1.5, 2.005) returns 4.999975 although the curve reaches 5 at x=2'} if missing else None)
         # prefactor handling of the knot term (C08.d): on one path that carries it
         done_d = set()
